@@ -12,7 +12,7 @@ log = open(f'{src}/verify.log').read() if os.path.exists(f'{src}/verify.log') el
 m['property'] = m.get('property')
 m['breaks'] = m['property']
 m['confirmed_by_me'] = {
-    'what_i_ran': 'tools/verify_seeded.sh in the sub-agent\'s scratch worktree (base = pinned snapshot 97a9535): demo test with the change (must fail), '
+    'what_i_ran': 'tools/verify_seeded.sh in the sub-agent\'s scratch worktree (base = /repo HEAD at the time (pinned snapshot + fix commits)): demo test with the change (must fail), '
                   '`cargo test --offline --no-fail-fast` with the change and without the demo (must pass), demo without the change (must pass)',
     'demo_with_change_exit': next((l.split('=')[1] for l in log.splitlines() if l.startswith('demo_with_change_exit')), None),
     'suite_with_change': next((l for l in log.splitlines() if l.startswith('suite_with_change_exit')), None),
